@@ -75,17 +75,57 @@ def unwindset(gid, max_own):
     return us
 
 META = {
-    "functions_encoded": ["chess::movegen::gen::{generate_legal_moves, generate_captures, generate_quiets} + one of the eleven private generators per query",
+    "functions_encoded": ["chess::movegen::gen::{generate_legal_moves, generate_captures, generate_quiets} + one of the eleven private generators per query "
+                          "(generate_pawn_captures, generate_pawn_quiets, generate_knight_captures/_quiets, generate_diagonal_slider_captures/_quiets, "
+                          "generate_orthogonal_slider_captures/_quiets, generate_king_captures/_quiets, generate_castles + generate_castle_move_for_side)",
                           "chess::movegen::attackers::generate_attackers_of", "chess::movegen::pins::get_pins",
-                          "chess::board::Board::{clone, remove_at, king_in_check, pieces_of_kind, ...}", "chess::moves::Move::{quiet, capture, castles, en_passant, quiet_promotion, capture_promotion}",
-                          "chess::game::Game::is_king_in_check", "chess::bitboard::{Bitboard ops, SquareIterator::next, bitboards::castle_squares}"],
-    "stubs": ["the six table look-ups -> straight-line geometry (equality with the real tables is C07's verdict)",
-              "arrayvec::ArrayVec::push -> monitor counting pushes equal to one arbitrary watched 16-bit move (list capacity 218 not modelled)",
-              "per query the ten other private generators -> no-ops (they communicate with the list through push only)"],
-    "bounds": [], "outside": [], "assumptions": [], "trusted_base": ["kani 0.68.0", "cbmc 6.11.0", "cadical"],
-    "explanation": "",
+                          "chess::board::Board::{clone, remove_at, king_in_check, pawns, knights, diagonal_sliders, orthogonal_sliders, king, occupancy, occupancy_for}",
+                          "chess::moves::Move::{quiet, capture, castles, en_passant, quiet_promotion, capture_promotion}", "chess::game::Game::is_king_in_check",
+                          "chess::bitboard::{Bitboard operators and shifts, SquareIterator::next, pop_lsb_inplace, bitboards::castle_squares, pawn_back_rank}"],
+    "stubs": ["the six table look-ups (rook/bishop/knight/king/pawn attacks, between) -> straight-line geometry; equality with the real tables for every "
+              "square and occupancy is C07's verdict",
+              "arrayvec::ArrayVec::push -> monitor counting pushes equal to ONE arbitrary watched 16-bit move (so: none missing, none illegal, none twice, "
+              "every flag bit right); the list's capacity (218) is not modelled",
+              "per query the ten other private generators -> no-ops; sound because generators communicate with the list through push only (by inspection: "
+              "they receive &mut MoveList and only call push)"],
+    "bounds": ["the whole position is symbolic (twelve bitboards, side given by the case, rights, ep target) under the property's validity predicate - "
+               "up to 30 other men anywhere",
+               "case split (one SAT query each): generator x side to move x own-king square; quick: home square + one seeded square per colour; thorough: all 64",
+               "own men the generator loops over: <= 8 pawns / <= 4 knights / <= 4 diagonal sliders (bishops+queens) / <= 4 orthogonal sliders (rooks+queens); "
+               "more is outside the claim (loop bounds, unwinding assertions on)"],
+    "outside": ["king squares not run in this tier (listed per run in samples)", "more own knights/sliders than the loop bounds", "ArrayVec capacity"],
+    "assumptions": ["oracle = make-then-test rules in harness/verif/pos.rs (shares no logic with check masks / pin masks)",
+                    "validity predicate = the property's 'legal position' (superset of reachable positions)"],
+    "trusted_base": ["kani 0.68.0", "cbmc 6.11.0", "cadical", "C07 (geometry == tables)"],
+    "explanation": "For each (generator, side, king square) the solver decides, over all placements of all other men and one arbitrary watched move w, that "
+                   "the number of times w is pushed is 1 if w is exactly the encoding of a legal move in that generator's class and 0 otherwise.",
 }
-MANIFEST = {"text": "placeholder", "note": "placeholder", "design_ref": "DESIGN.md s.4 C01"}
+MANIFEST = {
+    "text": "Bounded model checking of the real generators on fully symbolic positions: per (generator, side to move, own-king square) one SAT query covers "
+            "EVERY placement of all other men (up to 32 men, rights, en-passant target, under the property's validity predicate) and one arbitrary watched "
+            "16-bit move, asserting it is pushed exactly once iff it is exactly the encoding (capture / en-passant / castle / promotion bits included) of a "
+            "move that is legal by an independent make-then-test oracle, and never otherwise. Summed over the eleven generators this is exactness of the "
+            "generated list. Quick runs two king squares per colour, thorough all 64. The in-check verdict is compared with the rules on every valid position.",
+    "note": "Table look-ups replaced by geometry (C07); loop bounds on own knights/sliders (4) and pawns (8); king squares not run are not covered; list capacity not modelled.",
+    "design_ref": "DESIGN.md s.4 C01",
+}
+
+QUICK_POOL_W = ["d4", "a1", "h1", "c3", "g2", "b5", "e6", "h4", "a7", "f8", "d1", "g1", "c1", "e2", "h8", "a4"]
+
+
+def make_job(gid, wtm, sq, timeout, max_own=None, max_total=0):
+    g = GENS[gid]
+    mo = g[4] if max_own is None else max_own
+    name, src = instance(gid, wtm, sq, mo, max_total)
+    return Job(name, f"{g[1]}: watched move pushed once iff legal and in class; {'white' if wtm else 'black'} king on {SQN(sq)}, all other men symbolic",
+               gen=src, timeout=timeout, mem_gb=24, checks="functional", witness=False, unwind=2, unwindset=unwindset(gid, mo),
+               params={"generator": g[1], "white": wtm, "king": SQN(sq), "max_own_looped": mo, "max_total": max_total})
+
+
+def in_check_job():
+    src = "#[kani::proof]\n" + "\n".join(f"#[kani::stub({a}, {b})]" for a, b in GEOM_STUBS) + "\npub fn c01_in_check_all() { c01::c01_in_check_body(); }\n"
+    return Job("c01_in_check_all", "is_king_in_check == rules on every valid position (all king squares, both sides)", gen=src, timeout=1800, mem_gb=16,
+               checks="functional", witness=False, unwind=8)
 
 
 def jobs(tier, seed):
@@ -94,9 +134,24 @@ def jobs(tier, seed):
     if spec:
         for it in spec.split(","):
             gid, c, sq, mo, mt = it.split(":")
-            name, src = instance(int(gid), c == "w", SQ(sq), int(mo), int(mt))
-            js.append(Job(name, f"generator {GENS[int(gid)][1]}", gen=src, timeout=int(os.environ.get("C01_TIMEOUT", "3600")), mem_gb=24,
-                          checks="functional", witness=False, unwind=int(os.environ.get("C01_UNWIND", "2")), unwindset=unwindset(int(gid), int(mo)),
-                          params={"generator": GENS[int(gid)][1], "white": c == "w", "king": sq, "max_own": int(mo), "max_total": int(mt)}))
+            js.append(make_job(int(gid), c == "w", SQ(sq), int(os.environ.get("C01_TIMEOUT", "3600")), int(mo), int(mt)))
         return js
+    js.append(in_check_job())
+    if tier == "thorough":
+        for gid in range(11):
+            for wtm in (True, False):
+                for sq in range(64):
+                    js.append(make_job(gid, wtm, sq, 5400))
+        return js
+    rnd = random.Random(seed)
+    extra_w = SQ(rnd.choice(QUICK_POOL_W))
+    extra_b = SQ(rnd.choice(QUICK_POOL_W)) ^ 56
+    for gid in range(11):
+        for wtm, squares in ((True, [SQ("e1"), extra_w]), (False, [SQ("e8"), extra_b])):
+            for sq in squares:
+                js.append(make_job(gid, wtm, sq, 2400))
     return js
+
+
+def decode(job, vals):
+    return None
